@@ -58,7 +58,7 @@ func (c10) Classes() []sim.Class {
 func (c10) Describe() sim.Description {
 	return sim.Description{
 		Level: "exploration",
-		Rule: "2-4 simulated clients (baton-scheduled real goroutines, exactly one runs), each a tape-generated list of 2-6 operations over names {\"\",a,b}, two tiny binaries and a host module: InstantiateModule(bin|host, name) with a CloseNotifier, Module(name), Close/CloseWithExitCode on a held or looked-up handle, IsClosed, CompileModule, CompiledModule.Close, Runtime.Close/CloseWithExitCode. " +
+		Rule: "class async-close-concurrent: 2-3 calls in flight on one module under close-on-context-done, the k-th host callback cancels, watcher goroutines are tasks; every call must end with the exit error, notification and resource release exactly once; every class: statements touching fields documented as guarded assert that the mutex is held; classes registry / compiled-handles: 2-4 simulated clients (baton-scheduled real goroutines, exactly one runs), each a tape-generated list of 2-6 operations over names {\"\",a,b}, two tiny binaries and a host module: InstantiateModule(bin|host, name) with a CloseNotifier, Module(name), Close/CloseWithExitCode on a held or looked-up handle, IsClosed, CompileModule, CompiledModule.Close, Runtime.Close/CloseWithExitCode. " +
 			"The scheduler switches tasks at yield points (every statement of runtime.go, builder.go, store.go, store_module_list.go, module_instance.go; every lock, atomic and Once operation) per tape: uniform, PCT-style with 1-3 change points, or sequential. " +
 			"A fifth of the instantiations (class registry) use a module whose configured start function fails inside a host function -- by sys.ExitError(3), sys.ExitError(0) or a panic -- after the instance was registered: the history records an instantiation before the host function's stamp and a close after it, so the name must be free and the instance closed when InstantiateModule returns. " +
 			"Invoke/return events are stamped with the global event sequence number; porcupine checks the history (plus a final sequential probe) against the atomic-registry specification; outside porcupine: no operation panics, no deadlock, each close notification fires at most once and exactly once for closed modules. " +
